@@ -145,3 +145,90 @@ Theorem combine_comments_text_refuted_lemma :
   exists u, go_ctext cfg_asis u <> spec_content u.
 Proof. exists (mkunit true [32; 97; 13; 10; 13; 10; 32; 98; 32] 1). vm_compute. discriminate. Qed.
 
+
+(* ================================================================ phase 1: the lexer on a gap *)
+Open Scope nat_scope.
+
+(* where the comments lie: first line, last line, index *)
+Fixpoint layout (line idx : nat) (us : list cunit) : list lcm :=
+  match us with
+  | [] => []
+  | u :: r => mklcm (u_blk u) line (line + u_k u) idx u :: layout (line + u_k u + u_nls u) (S idx) r
+  end.
+
+Fixpoint end_line (line : nat) (us : list cunit) : nat :=
+  match us with
+  | [] => line
+  | u :: r => end_line (line + u_k u + u_nls u) r
+  end.
+
+Lemma end_line_ge us : forall line, line <= end_line line us.
+Proof. induction us as [|u r IH]; intros line; cbn [end_line]; [lia|]. specialize (IH (line + u_k u + u_nls u)). lia. Qed.
+
+Lemma newlines_spec n : forall st,
+  newlines n st = mklexst (l_cur st + n)
+                          (if first_is_block (l_cms st) && Nat.ltb 0 (l_md st) then l_md st + n else l_md st)
+                          (l_cms st).
+Proof.
+  induction n as [|n IH]; intros [cur md cms]; cbn [newlines l_cur l_md l_cms].
+  - rewrite !Nat.add_0_r. destruct (first_is_block cms && (0 <? md)); reflexivity.
+  - rewrite IH. unfold maybe_newline. cbn [l_cur l_md l_cms].
+    destruct (first_is_block cms) eqn:F; cbn [andb].
+    + destruct (Nat.ltb_spec 0 md) as [H|H].
+      * replace (0 <? S md) with true by (symmetry; apply Nat.ltb_lt; lia). f_equal; lia.
+      * replace (0 <? md) with false by (symmetry; apply Nat.ltb_ge; lia). f_equal; lia.
+    + f_equal; lia.
+Qed.
+
+Lemma first_is_block_app cms c : cms <> [] -> first_is_block (cms ++ [c]) = first_is_block cms.
+Proof. destruct cms; [congruence|reflexivity]. Qed.
+
+(* the comments after the first one *)
+Lemma lex_rest us : forall cur md cms, cms <> [] ->
+  fold_left lex_unit us (mklexst cur md cms)
+  = mklexst (end_line cur us)
+            (if first_is_block cms && Nat.ltb 0 md then md + (end_line cur us - cur) else md)
+            (cms ++ layout cur (length cms) us).
+Proof.
+  induction us as [|u r IH]; intros cur md cms Hne; cbn [fold_left layout end_line].
+  - rewrite Nat.sub_diag, Nat.add_0_r, app_nil_r. destruct (first_is_block cms && (0 <? md)); reflexivity.
+  - unfold lex_unit at 2. rewrite newlines_spec. cbn [l_cur l_md l_cms].
+    unfold add_comment. cbn [l_cur l_md l_cms].
+    destruct cms as [|c0 cms']; [congruence|].
+    rewrite newlines_spec. cbn [l_cur l_md l_cms].
+    rewrite IH by (destruct cms'; discriminate).
+    pose proof (end_line_ge r (cur + u_k u + u_nls u)) as Hge.
+    change (first_is_block ((c0 :: cms') ++ [mklcm (u_blk u) cur (cur + u_k u) (length (c0 :: cms')) u]))
+      with (c_blk c0). cbn [first_is_block].
+    rewrite app_length. cbn [length]. rewrite <- app_assoc. cbn [app].
+    f_equal; [|repeat f_equal; lia].
+    destruct (c_blk c0); cbn [andb]; [|reflexivity].
+    destruct (Nat.ltb_spec 0 md) as [H|H].
+    + replace (0 <? md + u_k u) with true by (symmetry; apply Nat.ltb_lt; lia). cbn [andb].
+      replace (0 <? md + u_k u + u_nls u) with true by (symmetry; apply Nat.ltb_lt; lia). lia.
+    + replace md with 0 by lia. cbn. reflexivity.
+Qed.
+
+(* l.maybeDonateComment when the next token is reached *)
+Definition md_final (p : nat) (us : list cunit) : nat :=
+  match us with
+  | [] => 0
+  | u :: r => if Nat.eqb p 0 then (if u_blk u then 1 + (end_line p us - (p + u_k u)) else 1) else 0
+  end.
+
+Lemma lex_gap_spec g :
+  lex_gap g = mklexst (end_line (g_pre g) (g_units g)) (md_final (g_pre g) (g_units g))
+                      (layout (g_pre g) 0 (g_units g)).
+Proof.
+  unfold lex_gap. rewrite newlines_spec. cbn [l_cur l_md l_cms first_is_block andb Nat.add].
+  destruct (g_units g) as [|u r]; cbn [fold_left md_final layout end_line]; [reflexivity|].
+  unfold lex_unit at 2. rewrite newlines_spec. cbn [l_cur l_md l_cms first_is_block andb].
+  unfold add_comment. cbn [l_cur l_md l_cms app length].
+  rewrite newlines_spec. cbn [l_cur l_md l_cms first_is_block].
+  rewrite lex_rest by discriminate. cbn [first_is_block length app].
+  pose proof (end_line_ge r (g_pre g + u_k u + u_nls u)) as Hge.
+  f_equal.
+  destruct (Nat.eqb_spec (g_pre g) 0) as [E|E]; destruct (u_blk u); cbn [c_blk andb Nat.ltb Nat.leb Nat.add]; try reflexivity.
+  - rewrite E in *. cbn [Nat.add] in *.
+    replace (0 <? 1 + u_nls u) with true by (symmetry; apply Nat.ltb_lt; lia). lia.
+Qed.
